@@ -317,8 +317,24 @@ class GenA:
         self.emit({"op": "cmp", "f": self.rng.choice(["==", "<"]), "a": a, "b": b})
 
     def g_roundtrip(self):
-        codec = self.rng.choice(["pickle2", "pickle4", "pickle5", "copy", "deepcopy",
+        codec = self.rng.choice(["pickle2", "pickle3", "pickle4", "pickle5", "copy", "deepcopy",
                                  "json", "json_ctx"])
+        r = self.rng.random()
+        if self.prop == "C15" and r < 0.12:
+            p, mp = self.any_prefix()
+            ref = self.emit({"op": "roundtrip", "x": p, "kind": "prefix", "codec": codec})
+            self.prefixes.append((ref, mp))
+            return
+        if self.prop == "C15" and r < 0.24:
+            d, md = self.any_dim()
+            ref = self.emit({"op": "roundtrip", "x": d, "kind": "dim", "codec": codec})
+            self.dims.append((ref, md))
+            return
+        if self.prop == "C15" and r < 0.32:
+            x, mx = self.any_unit()
+            self.emit({"op": "json_nested", "x": x, "kind": "unit",
+                       "how": self.rng.choice(["nested", "install", "mixed"])})
+            return
         if self.qtys and self.rng.random() < 0.3:
             x, mx = self.rng.choice(self.qtys)
             ref = self.emit({"op": "roundtrip", "x": x, "kind": "qty", "codec": codec})
@@ -669,6 +685,28 @@ class GenA:
         return ref
 
     # ------------------------------------------------- serialization / restart
+    def g_twins(self):
+        """Equal-valued quantities of one unit with different magnitude types (5, 5.0,
+        Decimal('5')), each sent through JSON: the type must survive."""
+        rng = self.rng
+        u, mu = self.any_unit(True)
+        v = rng.choice(["5", "2000", "0", "7", "12", "-3", "1000"])
+        specs = [["int", v], ["float", repr(float(v))], ["dec", rng.choice([v, v + ".0", "%sE+0" % v])]]
+        rng.shuffle(specs)
+        for spec in specs[: rng.choice([2, 3])]:
+            q = self.emit({"op": "q_new", "m": spec, "u": u, "how": rng.choice(["mul", "ctor"])})
+            self.qtys.append((q, mu))
+            how = rng.random()
+            if how < 0.6:
+                r = self.emit({"op": "roundtrip", "x": q, "kind": "qty",
+                               "codec": rng.choice(["json", "json_ctx", "json"])})
+                self.qtys.append((r, mu))
+            else:
+                b = self.emit({"op": "dump", "x": q, "kind": "qty", "codec": "json"})
+                self.blobs.append((b, "qty", mu))
+                r = self.emit({"op": "load", "blob": b})
+                self.qtys.append((r, mu))
+
     def g_dump(self):
         codec = self.rng.choice(["pickle2", "pickle3", "pickle4", "pickle5", "json", "json"])
         if self.qtys and self.rng.random() < 0.35:
@@ -721,13 +759,18 @@ class GenA:
             "pow_then_root": 5, "p_mul_u": 5, "as_ratio": 10, "render": 10, "parse": 4,
             "q_new": 5, "q_bin": 5, "q_unit": 3, "q_pow": 2, "q_root": 2, "quantify": 3,
             "unprefixed": 2, "q_unit_of": 2, "convert": 5, "cmp": 3, "roundtrip": 4,
-            "evict": 4, "import": 1, "d_ops": 2, "p_ops": 2,
+            "evict": 4, "import": 1, "d_ops": 2, "p_ops": 2, "dump": 3, "load": 2, "restart": 1.5,
         },
         "C02": {
             "law": 22, "define_unit": 4, "derive": 3, "u_mul": 8, "u_pow": 5, "u_root": 5, "pow_then_root": 4,
             "p_mul_u": 5, "as_ratio": 3, "render": 2, "parse": 2, "q_new": 2, "q_bin": 3, "q_unit": 2,
             "q_pow": 2, "quantify": 2, "unprefixed": 1, "q_unit_of": 2, "convert": 1, "roundtrip": 3,
             "evict": 4, "import": 1, "d_ops": 3, "p_ops": 4, "dump": 2, "load": 2, "restart": 1,
+        },
+        "C15": {
+            "roundtrip": 22, "dump": 10, "load": 8, "restart": 3, "twins": 4, "define_unit": 4, "derive": 3, "decl_alias": 3,
+            "u_mul": 8, "u_pow": 5, "p_mul_u": 6, "u_root": 2, "as_ratio": 2, "q_new": 8, "q_bin": 3, "q_unit": 3,
+            "q_pow": 2, "render": 2, "evict": 2, "import": 1, "d_ops": 3, "p_ops": 3,
         },
         "C19": {
             "decl_unit": 10, "decl_derive": 10, "decl_alias": 10, "decl_prefix": 8, "decl_dim": 5,
@@ -759,7 +802,11 @@ class GenA:
             getattr(self, "g_" + k)()
             if inject_at is not None and len(self.ops) > inject_at >= before:
                 op = self.ops[inject_at]
-                if op["op"] not in ("evict", "import"):
+                # never inside the process-global JSON codec context: an asynchronous exception
+                # there leaks module state of the standard library's json, which is outside every
+                # listed property and would poison the rest of the run
+                if op["op"] not in ("evict", "import", "json_nested", "restart") and \
+                        op.get("codec") != "json_ctx":
                     op["inject"] = {
                         "ordinal": rng.choice([1, 2, 3, 5, 8, 13, 21, 34, 55, 89]),
                         "exc": rng.choice(["KeyboardInterrupt", "MemoryError"]),
